@@ -4,6 +4,7 @@ package vs
 
 import (
 	"fmt"
+	"strings"
 	"time"
 )
 
@@ -18,8 +19,9 @@ type Timer struct {
 	c           *Chan
 	fn          func()
 	fires       int
-	idleOnly    bool // harness observer timer: fires only when no other transition is enabled
-	armedAtFire int  // idleOnly: how many OTHER timers were armed at the quiescent instant it fired
+	idleOnly    bool   // harness observer timer: fires only when no other transition is enabled
+	armedAtFire int    // idleOnly: how many OTHER timers were armed at the quiescent instant it fired
+	creator     string // name of the goroutine that armed it
 }
 
 func (t *Timer) stateHash() H {
@@ -38,7 +40,7 @@ func (s *Sched) newTimer(d time.Duration, fn func()) *Timer {
 	s.do(o)
 	g := s.cur
 	s.bump(g, uint64(s.clock), uint64(d))
-	t := &Timer{name: fmt.Sprintf("t%s#%d", g.path, g.nmake), fn: fn}
+	t := &Timer{name: fmt.Sprintf("t%s#%d", g.path, g.nmake), fn: fn, creator: g.name}
 	t.hid = Mix(g.chain, 0x71, uint64(g.nmake))
 	if fn == nil {
 		t.C = make(chan time.Time, 1)
@@ -83,7 +85,12 @@ func (s *Sched) fire(t *Timer) {
 	}
 	t.h = Mix(t.h, 0x72, uint64(t.fires), uint64(s.clock))
 	if t.fn != nil {
-		g := &G{seq: len(s.gs), name: "afterfunc:" + t.name, wake: make(chan struct{})}
+		gname := "afterfunc:" + t.name
+		if strings.HasPrefix(t.creator, "lib:") {
+			// a timer callback armed by a library goroutine is a library goroutine (leak oracles count it)
+			gname = "lib:afterfunc(" + t.creator + ")"
+		}
+		g := &G{seq: len(s.gs), name: gname, wake: make(chan struct{})}
 		g.path = fmt.Sprintf("%s.f%d", t.name, t.fires)
 		g.chain = Mix(t.hid, 0x73, uint64(t.fires), t.h.A)
 		s.fp = s.fp.add(g.chain)
